@@ -77,18 +77,25 @@ impl Window {
             },
         };
 
+        // Las jambas están en el plano vertical que contiene la línea de máxima pendiente del opaco y su normal:
+        // son elementos verticales (tilt 90) girados +-90º respecto al opaco, y su polígono se gira en ese plano según
+        // la inclinación del opaco (en un opaco vertical coincide con el rectángulo sin girar)
+        let (sin_t, cos_t) = wallgeom.tilt.to_radians().sin_cos();
+        let left = |u: f32, v: f32| point![v * cos_t + u * sin_t, v * sin_t - u * cos_t];
+        let right = |u: f32, v: f32| point![u * sin_t - v * cos_t, v * sin_t + u * cos_t];
+
         let left_fin = Shade {
             id: uuid_from_str(&format!("{}-left_setback", self.id)),
             name: format!("{}_left_setback", self.name),
             geometry: WallGeom {
-                tilt: wallgeom.tilt,
+                tilt: 90.0,
                 azimuth: wallgeom.azimuth + 90.0,
                 position: Some(wall2world * point![wpos.x, wpos.y + wing.height, 0.0]),
                 polygon: vec![
-                    point![0.0, 0.0],
-                    point![0.0, -wing.height],
-                    point![wing.setback, -wing.height],
-                    point![wing.setback, 0.0],
+                    left(0.0, 0.0),
+                    left(0.0, -wing.height),
+                    left(wing.setback, -wing.height),
+                    left(wing.setback, 0.0),
                 ],
             },
         };
@@ -97,14 +104,14 @@ impl Window {
             id: uuid_from_str(&format!("{}-right_setback", self.id)),
             name: format!("{}_right_setback", self.name),
             geometry: WallGeom {
-                tilt: wallgeom.tilt,
+                tilt: 90.0,
                 azimuth: wallgeom.azimuth - 90.0,
                 position: Some(wall2world * point![wpos.x + wing.width, wpos.y + wing.height, 0.0]),
                 polygon: vec![
-                    point![0.0, 0.0],
-                    point![-wing.setback, 0.0],
-                    point![-wing.setback, -wing.height],
-                    point![0.0, -wing.height],
+                    right(0.0, 0.0),
+                    right(-wing.setback, 0.0),
+                    right(-wing.setback, -wing.height),
+                    right(0.0, -wing.height),
                 ],
             },
         };
